@@ -175,6 +175,37 @@ theorem protect_then_auth_lite (C : Cipher) (hC : BlockCipher C) (idm pw rc idBl
   obtain ⟨sk, _, _, h⟩ := lite_auth_complete C hC idm pw key rc idBlock wc hidm hkey hrc hrcB hid hidB
   exact ⟨_, h⟩
 
+/-- The empty password explicitly (the documented "factory key" option), as opposed to `None`:
+`protect(b"")` DOES write a key block, namely 16 zero octets (FeliCa Lite / Lite-S), resp. PWD
+FF FF FF FF and PACK 00 00 (NTAG21x), whatever key the tag held before, and `authenticate(b"")`
+then succeeds against the tag that stored it; only `protect(None)` writes no key. -/
+theorem protect_empty_password (C : Cipher) (hC : BlockCipher C) (idm rc idBlock wc cc : Bytes)
+    (hidm : idm.length = 8) (hcc : liteChallengeCmd idm rc = .ok cc)
+    (hrc : rc.length = 16) (hrcB : IsBytes rc) (hid : idBlock.length = 16) (hidB : IsBytes idBlock) :
+    (∃ pc, liteProtectKeyWrite idm (some []) = .ok (some pc) ∧ pc.drop 16 = zeros 16
+      ∧ ∃ s, liteAuthenticate C idm [] rc (writeOk idm)
+          (LiteTag.readFrame C ⟨pc.drop 16, cc.drop 16, wc⟩ idm 2 idBlock) = .ok (true, some s))
+    ∧ liteProtectKeyWrite idm none = .ok none
+    ∧ (∀ rp pf cfg pages, ntagProtectPages [] rp pf cfg = .ok pages →
+        NtagTag.ofPages pages = ⟨[0xFF, 0xFF, 0xFF, 0xFF], [0, 0]⟩
+        ∧ ntagAuthenticate [] (.ok ((NtagTag.ofPages pages).respond (ntagAuthCmd [0xFF, 0xFF, 0xFF, 0xFF, 0, 0]))) = .ok true) := by
+  have hkey : liteKey [] = .ok (zeros 16) := by decide
+  have hw := writeCmd_ok idm [0x87] (revHalves (zeros 16)) hidm (by decide)
+  obtain ⟨pc0, hpc⟩ : ∃ pc0, liteProtectKeyCmd idm [] = .ok pc0 :=
+    ⟨_, by simp only [liteProtectKeyCmd, hkey, Py.bind_ok]; exact hw⟩
+  refine ⟨⟨pc0, by simp only [liteProtectKeyWrite, hpc, Py.bind_ok], ?_, ?_⟩, rfl, ?_⟩
+  · rw [protect_key_block idm [] (zeros 16) _ hidm hkey hpc]; decide
+  · exact protect_then_auth_lite C hC idm [] rc idBlock wc _ cc hidm hpc hcc hrc hrcB hid hidB
+  · intro rp pf cfg pages h
+    have hk : ntagKey [] = .ok [0xFF, 0xFF, 0xFF, 0xFF, 0, 0] := by decide
+    have ht := ntag_protect_tag [] _ cfg rp pf pages hk h
+    refine ⟨by rw [ht]; rfl, ?_⟩
+    rw [ht]
+    exact (ntag_exact [] _ _ hk).mpr ⟨rfl, rfl⟩
+
+example : liteProtectKeyWrite [1, 2, 3, 4, 5, 6, 7, 8] (some [])
+    = .ok (some ([32, 8, 1, 2, 3, 4, 5, 6, 7, 8, 1, 9, 0, 1, 0x80, 0x87] ++ List.replicate 16 0)) := by decide
+
 /-- `protect(pw)` then `authenticate` on NTAG21x: the tag whose PWD / PACK pages are the pages the
 reader wrote answers PACK to `authenticate(pw)`, which is true; a password with another derived
 key is false. -/
